@@ -1590,7 +1590,20 @@ class C10(Prop):
             cap = rng.choice(caps)
             nitems = sum(1 + (1 if p[1] else 0) for p in parts) + 2
             calls = "".join(rng.choice("rn") + rng.choice("bfp") for _ in range(nitems + rng.randint(0, 3)))
-            out.append(Case("rd %s %s %s %s" % (kind, cap, ("x" + hx(s2)) if s2 else "x.", calls), "e2e-" + kind,
+            evs = ("x" + hx(s2)) if s2 else "x."
+            if kind == "io" and s2 and rng.random() < 0.5:
+                # an io::Read may report Interrupted at any time; read_exact retries it
+                toks, i = [], 0
+                while i < len(s2):
+                    j = min(len(s2), i + rng.randint(1, 40))
+                    if rng.random() < 0.5:
+                        toks.append("I")
+                    toks.append("x" + hx(s2[i:j]))
+                    i = j
+                if rng.random() < 0.5:
+                    toks.append("I")
+                evs = ",".join(toks)
+            out.append(Case("rd %s %s %s %s" % (kind, cap, evs, calls), "e2e-" + kind,
                             dict(parts=parts, tail=tailn, calls=calls)))
         return out
 
